@@ -216,6 +216,10 @@ Fixpoint vnode_at (path : list nat) (t : vtree) : option vtree :=
   | i :: p => match nth_error (v_ch t) i with None => None | Some c => vnode_at p c end
   end.
 
+(* which _make_compatible /repo has (see [Model_vol.vmake_compatible_rec_w]): false = up to round 3, true = with the repair
+   landed in round 4 (VolatileModificationWarning when a concatenated sub-program holds a volatile count) *)
+Definition REPAIRED : bool := true.
+
 Definition with_warn {A} (r : result A) (w : bool) : result (A * bool) := bind r (fun a => Ok (a, w)).
 
 (* None: the rewrite is not modelled on volatile programs (no such rewrite is left) *)
@@ -232,7 +236,7 @@ Definition run_vop (o : opk) (path : list nat) (t : vtree) : option (result (vtr
   | OMerge => Some (vat_path (fun n => with_warn (vmerge_single_child n) false) path t)
   | OCleanup rm mg => Some (vat_path (fun n => with_warn (vcleanup rm mg n) false) path t)
   | OFlatten d => Some (vat_path (vflatten_and_balance_w fab_fuel d) path t)
-  | OMakeCompat ml q sr => Some (vat_path (vmake_compatible_w ml q sr) path t)
+  | OMakeCompat ml q sr => Some (vat_path (vmake_compatible_w REPAIRED ml q sr) path t)
   | ORoll mq q sr => Some (vat_path (fun n => with_warn (vroll_constant_waveforms mq q sr n) false) path t)
   end.
 
@@ -433,6 +437,10 @@ Definition vspec_exact (input : vtree) (path : list nat) (o : opk) (impl : vobs)
       match vnode_at path input with Some n => negb (vmergeable n) || v_has_wf n | None => false end
   | OCleanup _ true, VObsOk after _ _ _ _ =>
       match vnode_at path after with Some n => negb (vmergeable n) | None => false end
+  | OMakeCompat _ _ _, VObsOk after _ _ _ false =>
+      (* repaired make_compatible (observation only, no model run): without a VolatileModificationWarning every volatile
+         count is still there ([Props.C06_vol_make_compatible_repaired_keeps_counts] is the model's side of it) *)
+      negb REPAIRED || (vol_count after =? vol_count input)%nat
   | _, _ => true
   end.
 
